@@ -391,6 +391,47 @@ func runC09(c *core.Ctx) {
 	})
 	c.Sample(map[string]interface{}{"parser_input": "\\u3000zoo\\u00a0\\u0085か\\u3099く\\tab\\n"})
 	c.Sample(map[string]interface{}{"seed_example": hex.EncodeToString([]byte(jaNFC))[:40] + "... (NFC spelling of a Japanese sentence, U+3000 separated)"})
+	// receiver re-use (E2): all sequences of length <= 3 (thorough 4) of UnmarshalText over 7 texts on ONE Mnemonic x 3
+	// initial receivers; after every call the receiver holds what the reference parser reads in that text
+	{
+		texts := []string{"", "zoo", " a\tb\n", "abandon ability able about above absent absorb abstract absurd abuse access accident", "\u3000が\u3099く ", "x y z w", "\u00a0"}
+		inits := []func() bip39.Mnemonic{func() bip39.Mnemonic { return nil }, func() bip39.Mnemonic { return bip39.Mnemonic{"q", "r", "s"} },
+			func() bip39.Mnemonic { return append(make(bip39.Mnemonic, 0, 32), "k") }}
+		depth := 3
+		if th {
+			depth = 4
+		}
+		var seqs int64
+		var rec func(hist []int)
+		rec = func(hist []int) {
+			if len(hist) > 0 {
+				for ii, mk := range inits {
+					seqs++
+					q := mk()
+					var names []string
+					for _, ti := range hist {
+						names = append(names, texts[ti])
+						want, _ := rb39.Parse(texts[ti])
+						var err error
+						pn := core.Catch(func() { err = q.UnmarshalText([]byte(texts[ti])) })
+						if pn != nil || err != nil || len(q) != len(want) || len(want) > 0 && !reflect.DeepEqual([]string(q), want) {
+							c.Violate("C09/receiver-reuse", fmt.Sprintf("UnmarshalText(%+q) on a Mnemonic that was used before (initial receiver %d, texts %+q): receiver holds %+q (err %v, panic %v), the text reads %+q", texts[ti], ii, names, []string(q), err, pn, want), map[string]interface{}{"texts": names, "initial_receiver": ii}, "", nil)
+							return
+						}
+					}
+				}
+			}
+			if len(hist) == depth {
+				return
+			}
+			for t := range texts {
+				rec(append(append([]int{}, hist...), t))
+			}
+		}
+		rec(nil)
+		c.Eval(seqs)
+		c.Set("receiver_reuse_sequences", seqs)
+	}
 	// every word count, several different valid sentences one after the other in one process (a value remembered from the
 	// previous sentence of the same size must not matter), then the caller-supplied word lists
 	lists := map[string][]string{}
